@@ -67,6 +67,10 @@ BatchClause(r) ==
   IF \E c \in Buckets \ Addressed(r) : bk[c] # Obs(r)[c] THEN "batch-other-bucket-changed"
   ELSE IF \E i \in 1..Len(r.ops) : ~OutcomeOK(r.ops[i]) THEN "batch-outcome"
   ELSE IF ~f.ok THEN "batch-precondition"
+  \* the run ends with an out-of-contract call: every bucket other than the one it addressed must hold what the
+  \* calls before it left there (C04 without an intermediate read)
+  ELSE IF r.ops[Len(r.ops)].op = "foreign" /\ \E c \in Buckets \ {r.ops[Len(r.ops)].b} : f.s[c] # Obs(r)[c]
+       THEN "batch-other-bucket-changed-by-out-of-contract-call"
   ELSE IF \E c \in Buckets : f.s[c] # Obs(r)[c] THEN "batch-final-state"
   ELSE "none"
 
@@ -105,7 +109,11 @@ CListing(r) == \A b \in Buckets : r.st[b].ex =>
    /\ o.lst = [ex |-> TRUE, type |-> o.type, client |-> o.client, host |-> o.host, name |-> o.name,
                 data |-> o.data, created |-> o.created, idok |-> TRUE]
    /\ o.idok
-CListedAbsent(r) == \A b \in Buckets : ~r.st[b].ex => ~r.st[b].lst.ex
+   \* ... also through a handle obtained earlier, whatever happened to the bucket id in between
+   /\ \A k \in 1..Len(o.hd) : o.hd[k] = [ex |-> TRUE, type |-> o.type, client |-> o.client, host |-> o.host, name |-> o.name,
+                                          data |-> o.data, created |-> o.created, idok |-> TRUE, out |-> "ok"]
+\* a bucket that does not exist is not listed, and describing it (through an old handle) raises ValueError
+CListedAbsent(r) == \A b \in Buckets : ~r.st[b].ex => (~r.st[b].lst.ex /\ \A k \in 1..Len(r.st[b].hd) : r.st[b].hd[k] = [ex |-> FALSE, out |-> "ValueError"])
 \* the model's invariants and action properties, evaluated on the implementation's step
 CInv(r) == IdsUnique(Obs(r)) /\ FrameRel(bk, Obs(r)) /\ CreatedEmptyRel(bk, Obs(r)) /\ CreatedStableRel(bk, Obs(r))
 
